@@ -117,6 +117,27 @@ func (m *c07mon) after(s *sim, st rig.StepResult, ctx stepCtx) {
 			vk.Violation(s.t, c, "C07/reset-on-logout-missing", "after the logout the counters are S=%d T=%d, expected 1/1\n%s", S, T, s.history())
 		}
 	}
+	// ResetOnLogon applies: the Logon the engine sends (initiator: at connect; acceptor: in reply to
+	// the accepted Logon) is number 1 of a reset store. The option is the same for every BeginString;
+	// only the flag that announces the reset does not exist before FIX.4.1.
+	if m.o.resetOnLogon && (ctx.kind == "connect" && s.cfg.initiator || logonAccepted && !s.cfg.initiator) {
+		for _, e := range s.r.Outs(st) {
+			if e.MsgType != "A" {
+				continue
+			}
+			m.feat["logon-under-ResetOnLogon"] = true
+			role := "acceptor"
+			if s.cfg.initiator {
+				role = "initiator"
+			}
+			if e.Seq != 1 || resets == 0 {
+				vk.Violation(s.t, c, "C07/reset-on-logon-missing/"+role, "ResetOnLogon=Y: the %s's Logon has MsgSeqNum %d, store resets in this step: %d (counters before S=%d T=%d, after S=%d T=%d)\n%s", role, e.Seq, resets, ctx.sBefore, ctx.tBefore, S, T, s.history())
+			}
+			if s.cfg.initiator && (S != 2 || T != 1) {
+				vk.Violation(s.t, c, "C07/reset-on-logon-missing/initiator-counters", "ResetOnLogon=Y: after the initiator's Logon the counters are S=%d T=%d, expected 2/1\n%s", S, T, s.history())
+			}
+		}
+	}
 	if inbound141 && ctx.wellFormed && ctx.stateBefore == "logon" && s.r.V.IsLoggedOn() && s.cfg.begin != "FIX.4.0" {
 		m.feat["reset-negotiated"] = true
 		if ctx.seq != 1 {
